@@ -77,14 +77,21 @@ Proof. exact agree_example. Qed.
      keys_okb     no two channel names collide through the key scheme (finding map-key-collision)
      length ops <= StreamSize   neither side trims (finding map-stream-approx-trim beyond that)
      run_ok       per operation, relative to the memory model's state when it is issued:
-       Publish    keyed or unkeyed; delta allowed; no idempotency key (testing only); Score >= 0; a keyed Publish
+       ai         the run either uses idempotency keys on Publish and contains no Clear (ai = true), or may contain
+                  Clear and uses none (ai = false): a result cached before a Clear survives it on Redis only
+                  (finding map-clear-idempotency)
+       res_okb    (channel, idempotency key) pairs of the run do not collide through the result-key scheme
+       Publish    keyed or unkeyed; delta allowed; Score >= 0; with ai, an IdempotencyKey with
+                  0 <= IdempotentResultTTL < 2^31 ms (0 = the 5 min default): a repeated key is answered from the
+                  result cache (suppression "idempotency" with the cached position), suppressed publishes are not
+                  cached; cached results do not expire because no time passes in the domain; a keyed Publish
                   may carry a Version < 2^53 with any VersionEpoch (suppression "version"; an unversioned
                   publish keeps the stored version; finding map-version-ge-2^53 beyond);
                   new-epoch string without ':'; a keyed Publish may carry any KeyMode (suppressions
                   key_exists / key_not_found) and an ExpectedPosition with offset < 2^53 and a NON-EMPTY
                   epoch (suppression position_mismatch with the current entry; finding
                   map-cas-empty-epoch otherwise); an unkeyed one carries neither
-       Remove     non-empty key, no idempotency key, channel exists (finding map-remove-missing-channel);
+       Remove     non-empty key, no idempotency key (testing only), channel exists (finding map-remove-missing-channel);
                   an ExpectedPosition as for Publish (position_mismatch / key_not_found / removal)
        ReadStream Limit < 2^31; the epoch both sides would create is the same string (epochs are
                   compared up to renaming); existing channel: any since when forward
@@ -99,9 +106,10 @@ Proof. exact agree_example. Qed.
                   the node id is finding map-clear-epoch-reuse; idempotency keys across a Clear are
                   outside, finding map-clear-idempotency)
        key TTL sweeps, Stats and time passing are outside (testing only). *)
-Theorem C23_agree_core_partial : forall cf ops,
-  cfg_ok cf = true -> keys_okb (chans ops) = true -> (Z.of_nat (List.length ops) <= mc_size cf)%Z ->
-  run_ok cf mm_init ops = true ->
+Theorem C23_agree_core_partial : forall cf ops ai,
+  cfg_ok cf = true -> keys_okb (chans ops) = true -> res_okb (idems ops) = true ->
+  (Z.of_nat (List.length ops) <= mc_size cf)%Z ->
+  run_ok cf ai mm_init ops = true ->
   rm_run map_shallow cf rinit ops = mem_map_run cf ops.
 Proof. exact agree_core. Qed.
 Print Assumptions C23_agree_core_partial.
@@ -132,7 +140,7 @@ Definition w_core : list mop :=
    MPublish "b" "v1" (mkMP "" 0 "w8" false 1 "" 0 "" false None) "N68" 1000;
    MClear "a"; rd_stream "a" "N20"; pub "a" "k1" "again" "N21"; rd_state "a" "N22"].
 Example C23_core_domain_example :
-  cfg_ok cfP = true /\ keys_okb (chans w_core) = true /\ run_ok cfP mm_init w_core = true /\
+  cfg_ok cfP = true /\ keys_okb (chans w_core) = true /\ res_okb (idems w_core) = true /\ run_ok cfP false mm_init w_core = true /\
   (Z.of_nat (List.length w_core) <= mc_size cfP)%Z /\
   redis_map_run cfP w_core = rm_run map_shallow cfP rinit w_core /\
   firstn 6 (skipn 5 (mem_map_run cfP w_core)) =
@@ -151,3 +159,20 @@ Example C23_core_domain_example :
     MStream [(1%N, "k1", "d1", false); (2%N, "", "d2", false); (3%N, "k2", "d3", false); (4%N, "k1", "d4", false);
              (5%N, "k2", "d3", false); (6%N, "k1", "", true)] 6 "N0".
 Proof. vm_compute. repeat split; try reflexivity; discriminate. Qed.
+
+(* the idempotency part of the domain (ai = true) is inhabited as well *)
+Definition w_idem : list mop :=
+  [MPublish "a" "k1" (poi "d1" "i1") "N0" 1000; MPublish "a" "k1" (poi "d2" "i1") "N1" 1000;
+   MPublish "a" "k2" (mkMP "i2" 5000 "d3" false 0 "" 0 "" false None) "N2" 1000;
+   MPublish "a" "" (poi "d4" "i3") "N3" 1000; MPublish "a" "" (poi "d5" "i3") "N4" 1000;
+   MPublish "a" "k1" (mkMP "i4" 0 "d6" false 0 "" 0 "if_new" false None) "N5" 1000;
+   MPublish "a" "k1" (mkMP "i4" 0 "d7" false 0 "" 0 "" false None) "N6" 1000;
+   MPublish "b" "k1" (poi "e1" "i1") "N7" 1000; MPublish "a" "k2" (mkMP "i2" 0 "d8" false 0 "" 0 "" false None) "N8" 1000;
+   rd_state "a" "N9"; rd_stream "a" "N10"].
+Example C23_idem_domain_example :
+  keys_okb (chans w_idem) = true /\ res_okb (idems w_idem) = true /\ run_ok cfP true mm_init w_idem = true /\
+  redis_map_run cfP w_idem = rm_run map_shallow cfP rinit w_idem /\
+  map (fun r => match r with MUpd o _ s rs _ => (o, s, rs) | _ => (0%N, false, "?") end) (firstn 9 (mem_map_run cfP w_idem)) =
+    [(1%N, false, ""); (1%N, true, "idempotency"); (2%N, false, ""); (3%N, false, ""); (3%N, true, "idempotency");
+     (3%N, true, "key_exists"); (4%N, false, ""); (1%N, false, ""); (2%N, true, "idempotency")].
+Proof. vm_compute. repeat split; reflexivity. Qed.
